@@ -100,7 +100,7 @@ CLAIMS.update({
                 '(SYNTAX-POSITION), paths are realised and quoted as one unit '
                 '(WRITE-FLOW), and clean passes Path objects for all targets '
                 '(CLEAN-PATHS).'
-                ' Also DEPFIX-TABLE (shared with C07) for depfile entries with escaped characters and the comma-protection instance (F13).',
+                ' Also DEPFIX-TABLE (shared with C07) for depfile entries with escaped characters, the comma-protection instance (F13), and MK-WORDWISE (no generated Make text applies a word-wise file-name function or a D/F automatic-variable variant to a file name).',
         'note': _TB + 'Not decided: what compilers write into .d files / '
                 'depfixer agreement; that the tool then finds the file. '
                 'Known findings: srcdir containing #, file names containing '
